@@ -55,7 +55,9 @@ DIRS = ["exists", "missing", "is-file"]
 RESULTS = ["none", "sonar-present", "sarif-present", "sonar-missing", "sarif-missing", "hotspots-missing", "defectdojo-missing", "sarif-same-tool-twice", "sarif-two-tools"]
 # "both set" for the OpenAI clients is not enumerated: constructing the client fails in this sandbox with a
 # library-version TypeError (openai vs httpx 'proxies'), which is an artefact of the image, not of codemodder
-AI = ["unset", "azure-key-only", "azure-endpoint-only", "llama-key-only", "llama-endpoint-only", "llama-both"]
+AI = ["unset", "azure-key-only", "azure-endpoint-only", "llama-key-only", "llama-endpoint-only", "llama-both",
+      # a variable that is present but empty is not a configured value (what `VAR=${MISSING}` expands to)
+      "azure-key-empty", "azure-endpoint-empty", "llama-key-empty", "llama-endpoint-empty", "azure-both-empty"]
 OUTPUTS = ["writable", "none", "missing-parent", "is-directory", "parent-is-file"]
 
 
@@ -73,6 +75,16 @@ def ai_env(kind):
             env["CODEMODDER_AZURE_LLAMA_ENDPOINT"] = "https://example.invalid"
     if kind == "openai-key":
         env["CODEMODDER_OPENAI_API_KEY"] = "k"
+    if kind == "azure-key-empty":
+        env.update({"CODEMODDER_AZURE_OPENAI_API_KEY": "", "CODEMODDER_AZURE_OPENAI_ENDPOINT": "https://example.invalid"})
+    if kind == "azure-endpoint-empty":
+        env.update({"CODEMODDER_AZURE_OPENAI_API_KEY": "k", "CODEMODDER_AZURE_OPENAI_ENDPOINT": ""})
+    if kind == "llama-key-empty":
+        env.update({"CODEMODDER_AZURE_LLAMA_API_KEY": "", "CODEMODDER_AZURE_LLAMA_ENDPOINT": "https://example.invalid"})
+    if kind == "llama-endpoint-empty":
+        env.update({"CODEMODDER_AZURE_LLAMA_API_KEY": "k", "CODEMODDER_AZURE_LLAMA_ENDPOINT": ""})
+    if kind == "azure-both-empty":
+        env.update({"CODEMODDER_AZURE_OPENAI_API_KEY": "", "CODEMODDER_AZURE_OPENAI_ENDPOINT": ""})
     return env
 
 
@@ -166,7 +178,7 @@ def ref_exit_status(cfg):
         applicable.add(1)
     if r in ("sonar-missing", "sarif-missing", "hotspots-missing", "defectdojo-missing", "sarif-same-tool-twice"):
         applicable.add(1)
-    if a in ("azure-key-only", "azure-endpoint-only", "llama-key-only", "llama-endpoint-only"):
+    if a in ("azure-key-only", "azure-endpoint-only", "llama-key-only", "llama-endpoint-only", "azure-key-empty", "azure-endpoint-empty", "llama-key-empty", "llama-endpoint-empty"):
         applicable.add(3)
     if o in ("missing-parent", "is-directory", "parent-is-file"):
         applicable.add(2)
